@@ -149,7 +149,9 @@ def vary_cases(draw):
         # salts that differ only in their blanks / letter case / normal form / after a comment look-alike
         salts = list(draw(st.sampled_from([("a b", "a  b"), ("a b", "a\tb"), ("x ", "x  "), ("checkout v2", "checkout  v2"), (" s", "s"),
                                            ("s", "s "), ("Exp", "exp"), ("\u00e9", "e\u0301"), ("\u2126", "\u03a9"), ("u//1", "u//2"), ("q", "q'"), ("ﬁ", "fi"),
-                                           ("p /* 1 */", "p /* 2 */")])))
+                                           ("p /* 1 */", "p /* 2 */"), ("x" * 70 + "_v1", "x" * 70 + "_v2"),
+                                           ("a-long-descriptive-salt-for-the-spring-campaign-landing-page-experiment-A", "a-long-descriptive-salt-for-the-spring-campaign-landing-page-experiment-B"),
+                                           ("007", "7"), ("1.50", "1.5"), ("1e3", "1000.0")])))
     else:
         salts = draw(st.lists(st.sampled_from(["a", "b", "s1", "s2", "exp", "exp2", "A", " a", "a ", "é", "v1", "v2", "1", "2"]),
                               min_size=2, max_size=2, unique=True))
